@@ -13,7 +13,7 @@ TECHNIQUE = "contracts on the elaborated netlist of generated designs (real mana
 
 
 def configs(tier):
-    return corelib.design_configs(tier, schedulers=("eager",))
+    return corelib.design_configs(tier, schedulers=("eager",), with_cond=True)
 
 
 def run(cfg, ctx):
